@@ -9,8 +9,9 @@
    Hypothesis wf_progs: the pushed items are distinct nodes, none NULL or the
    fifo's stub ("the work queue owns item after pushing").
    Guard: in_count/out_count do not reach 2^63 (Z in the model).
-   Programs are lists of WorkQueue.op: Push item, or PushFF item = a push after
-   which the caller, if it was told START_WORKING, first adds FFAMT = 2^32 - 3
+   Programs are lists of WorkQueue.op: Push item, or PushFF j item = a push after
+   which the caller, if it was told START_WORKING, first adds ffamt j = 2^k - 3
+   (k = 32 20 16 31 24 8 12 36 for j = 0..7; ffamt 0 = FFAMT)
    to both counters in one step (pc GFfwd; the state FFAMT rounds of "push one
    more, get one" by the fresh worker reach); all statements cover programs
    with any placement of such pushes, so counters far beyond 2^32 included.
@@ -104,7 +105,7 @@ Proof.
 Qed.
 
 (* ---- fast-forward: counters beyond 2^32 ---- *)
-Definition ff_progs := [[PushFF 2]; [Push 3; Push 4; Push 5]; [PushFF 6]].
+Definition ff_progs := [[PushFF 0 2]; [Push 3; Push 4; Push 5]; [PushFF 0 6]].
 
 Example ff_wf : wf_progs ff_progs.
 Proof.
@@ -135,7 +136,32 @@ Example ex_ffwd_reachable :
            2;2;55;4294967297; 2;111;19;0; 2;1;43;5; 2;109;19;6; 2;1;909;0]%Z.
 Proof. split; [apply run_sched_reachable; constructor | vm_compute; repeat split; reflexivity]. Qed.
 
-(* ... and the whole run completes: all five items handed out exactly once,
+(* table entry 1 (2^20 - 3), no backlog: the worker hands out its own item,
+   then thread 1 pushes and the worker takes, twice ("push, get, push, get");
+   the third get_work makes out_count = in_count = 2^20 exactly, with the
+   worker between two get_work calls; the push that comes now reads 2^20 and
+   is told QUEUED (event 1 3 909 0): thread 0 is still the only worker *)
+Definition ff20_progs := [[PushFF 1 2]; [Push 3; Push 4; Push 5]].
+Example ff20_wf : wf_progs ff20_progs.
+Proof.
+  apply wf_of_nodup_concat; cbn.
+  - repeat constructor; cbn; intuition discriminate.
+  - intros a H. intuition lia.
+Qed.
+Example ex_ffwd20_exact :
+  let r1 := run_sched M (init ff20_progs)
+              (repeat 0 12 ++ repeat 1 4 ++ repeat 0 7 ++ repeat 1 4 ++ repeat 0 7) in
+  let r2 := run_sched M (fst r1) (repeat 1 4) in
+  reachable M (init ff20_progs) (fst r2) /\
+  inc (fst r1) = (2 ^ 20)%Z /\ outc (fst r1) = (2 ^ 20)%Z /\ pc (thr (fst r1) 0) = GHead /\
+  inc (fst r2) = (2 ^ 20 + 1)%Z /\ flag (thr (fst r2) 0) = true /\ flag (thr (fst r2) 1) = false /\
+  snd r2 = [1;2;55;1048576; 1;109;19;0; 1;1;43;4; 1;107;19;5; 1;3;909;0]%Z.
+Proof.
+  split; [apply run_sched_reachable; apply run_sched_reachable; constructor
+         | vm_compute; repeat split; reflexivity].
+Qed.
+
+(* ... and the whole 2^32 run completes: all five items handed out exactly once,
    in exchange order, the worker told EMPTY with both counters rebased to 0 *)
 Example ex_ffwd_drains :
   let x := irun (iinit ff_progs)
